@@ -34,3 +34,7 @@ Proof. exact single_bin_segmentation. Qed.
 Print Assumptions C05_single_bin_segmentation.
 Print Assumptions C05_dispatch_rows.
 Print Assumptions C05_cache_transparent.
+Print Assumptions C05_dispatch_table_ok.
+Print Assumptions C05_omega_from_frequency.
+Print Assumptions C05_kaiser_dft_even.
+Print Assumptions C05_band_fields_aligned.
